@@ -74,6 +74,9 @@ type Sched struct {
 	// Panics: panics that escaped a managed goroutine (in production: the process dies)
 	Panics  []string
 	holders map[any]string
+	// MapRaces: two managed goroutines were inside a write of the same map at once (rule "mapwrite")
+	MapRaces   []string
+	mapWriters map[uintptr]mapWriter
 	// AdvanceQuantum / MaxAdvance: when nothing is enabled but goroutines are alive, virtual time is advanced in
 	// quanta up to the horizon before the state is called a deadlock.
 	AdvanceQuantum time.Duration
